@@ -203,6 +203,48 @@ def kgf_seed_zero(part):
     part.nstates(15)
 
 
+def keyword_calls(part, _=None):
+    """the generators called with their documented parameter names as keywords, in signature order and in every other order, and
+    with a mixture of positional and keyword arguments: same points as the positional call"""
+    import itertools as it
+
+    from chmpy import sampling as S
+
+    specs = [("quasirandom_sobol", ("N", "D"), [(5, 3), (1, 1), (1000, 7), (3, 5)]),
+             ("quasirandom_kgf", ("N", "D"), [(5, 3), (0, 1), (1000, 7), (3, 5)]),
+             ("quasirandom_sobol_batch", ("start", "end", "D"), [(1, 8, 3), (5, 5, 2), (100, 140, 6), (2, 9, 3)]),
+             ("quasirandom_kgf_batch", ("L", "U", "D"), [(1, 8, 2), (0, 0, 3), (100, 140, 6), (2, 9, 3)])]
+    for fname, names, argsets in specs:
+        f = getattr(S, fname)
+        for args in argsets:
+            want = np.asarray(f(*args))
+            for perm in it.permutations(range(len(names))):
+                for npos in range(0, len(names)):
+                    if list(perm[:npos]) != list(range(npos)):
+                        continue                      # positional arguments come first and in order
+                    part.ev()
+                    part.tr()
+                    pos = [args[i] for i in range(npos)]
+                    kw = {names[i]: args[i] for i in perm[npos:]}
+                    case = {"kind": "kwcall", "fn": fname}
+                    try:
+                        got = np.asarray(f(*pos, **kw))
+                    except Exception as e:
+                        part.fail("keyword-call:raise:%s" % fname, "%s(%s) raised %r" % (fname, ", ".join([str(x) for x in pos] + ["%s=%s" % kv for kv in kw.items()]), e), case)
+                        continue
+                    if got.shape != want.shape or np.abs(got - want).max() > 0:
+                        part.fail("keyword-call:%s" % fname, "%s(%s) differs from the positional call %s%s" % (fname, ", ".join([str(x) for x in pos] + ["%s=%s" % kv for kv in kw.items()]), fname, args), case)
+            part.outcome(("kwcall", fname))
+    # the front end with keywords
+    for kw in ({"d1": 4, "d2": 3, "method": "sobol", "seed": 5}, {"seed": 5, "method": "sobol", "d2": 3, "d1": 4}, {"method": "kgf", "d1": 3, "seed": 2}, {"seed": 2, "d1": 3, "method": "kgf"}):
+        part.ev()
+        want = S.quasirandom(kw["d1"], kw.get("d2"), kw["method"], kw["seed"])
+        got = S.quasirandom(**kw)
+        if np.asarray(got).shape != np.asarray(want).shape or np.abs(np.asarray(got) - np.asarray(want)).max() > 0:
+            part.fail("keyword-call:quasirandom", "quasirandom(**%r) differs from the positional call" % (kw,), {"kind": "kwcall", "fn": "quasirandom"})
+    part.nstates(5)
+
+
 def reference_worker(part, dims):
     from chmpy.sampling import quasirandom_sobol_batch
 
@@ -228,6 +270,7 @@ def run(ctx):
     ctx.pmap(reference_worker, [[d] for d in range(1, 14)])
     frontend_history(ctx, 3 if ctx.thorough else 2)
     kgf_seed_zero(ctx)
+    ctx.hostile(keyword_calls)
     ctx.log("reference done")
     ws = windows(ctx.thorough)
     sob_dims = [1, 2, 3, 10, 100, 1000]
@@ -255,6 +298,8 @@ def replay(ctx, case):
         net_check(ctx)
     elif k == "ref":
         reference_worker(ctx, [case["d"]])
+    elif k == "kwcall":
+        keyword_calls(ctx)
     elif k == "kgf0":
         kgf_seed_zero(ctx)
     elif k == "history":
